@@ -70,6 +70,15 @@ theorem seq_assoc_left (a b c : Expr) (s : S0) (r : R0) :
     Conv g inp (.seq [.group (.seq [a, b]) none, c]) s r ↔ Conv g inp (.seq [a, b, c]) s r :=
   L0.seq_assoc_left a b c none s r
 
+/-- (2) … and a directly nested sequence (no `Group` node) -/
+theorem seq_flatten (as : List Expr) (b : Expr) (bs cs : List Expr) (s : S0) (r : R0) :
+    Conv g inp (.seq (as ++ [.seq (b :: bs)] ++ cs)) s r ↔ Conv g inp (.seq (as ++ (b :: bs) ++ cs)) s r :=
+  L0.seq_flatten as b bs cs s r
+
+theorem choice_flatten (as bs cs : List Expr) (s : S0) (r : R0) :
+    Conv g inp (.choice (as ++ [.choice bs] ++ cs)) s r ↔ Conv g inp (.choice (as ++ bs ++ cs)) s r :=
+  L0.choice_flatten as bs cs s r
+
 /-- (2') a parenthesised choice inside a choice -/
 theorem choice_assoc (as bs cs : List Expr) (s : S0) (r : R0) :
     Conv g inp (.choice (as ++ [.group (.choice bs) none] ++ cs)) s r ↔
@@ -151,6 +160,17 @@ theorem extract_silent_grammar {nm : String} {e : Expr} {g2 : Grammar}
     {start : String} (hs : start ≠ nm) (k : Nat) (r : R0) :
     ParseC g inp start k r ↔ ParseC g2 inp start k r :=
   L0.extract_silent_grammar hfresh hu h1 h2 h3 hG hnm hs k r
+
+/-- (6) as an equation between expressions: `⟦C[e]⟧_g = ⟦C[nm]⟧_{g + nm = _{e}}`, for any
+    number of replaced occurrences of `e` in `x` (and in rule bodies) -/
+theorem extract_silent_expr {nm : String} {e : Expr} {g2 : Grammar}
+    (hfresh : g.lookup nm = none) (hu : Unreferenced g nm)
+    (h1 : nm ≠ "WHITESPACE") (h2 : nm ≠ "COMMENT") (h3 : nm ≠ "SKIP")
+    (hG : GrammarRel (RefTo nm e) (addRule g ⟨nm, SILENT, e, .grammar⟩) g2)
+    (hnm : g2.lookup nm = some ⟨nm, SILENT, e, .grammar⟩)
+    {x x' : Expr} (hx : mentions nm x = false) (hxx : Cong (RefTo nm e) x x') (s : S0) (r : R0) :
+    Conv g inp x s r ↔ Conv g2 inp x' s r :=
+  L0.extract_silent_expr hfresh hu h1 h2 h3 hG hnm hx hxx s r
 
 /-! ### (7): congruence and combination -/
 
@@ -317,6 +337,141 @@ theorem grammar_rewrites_preserve_gen {g' : Grammar} (hs : SkipTotal g) (hs' : S
       rw [l1, l1'] at this
       simp [obs] at this
     | false => exact ⟨rfl, fun h => by cases h⟩
+
+/-! ### Non-vacuity: concrete grammars, rewritten, meet every hypothesis -/
+
+def never : Str := [0x2400, 0x2401]
+def wsRule : Rule := ⟨"WHITESPACE", SILENT, .str [32], .grammar⟩
+def sBody : Expr := .choice [.str [98], .str [99]]
+def sStar : Expr := .rep (.ident "s" none)
+
+/-- `r = { "a" ~ s* }   s = { "b" | "c" }   WHITESPACE = _{ " " }` -/
+def demoG : Grammar :=
+  { rules := [⟨"r", 0, .seq [.str [97], sStar], .grammar⟩, ⟨"s", 0, sBody, .grammar⟩, wsRule] }
+
+/-- step 1, three rewrites at once: `r = { ("a") ~ ((s* ~ NEVER) | s*) }   s = { (B | B) }`
+    with `B = "b" | "c"` -/
+def demoG1 : Grammar :=
+  { rules := [⟨"r", 0, .seq [.group (.str [97]) none,
+                  .group (.choice [.group (.seq [sStar, .str never]) none, sStar]) none], .grammar⟩,
+              ⟨"s", 0, .group (.choice [sBody, sBody]) none, .grammar⟩, wsRule] }
+
+/-- step 2, inside the result of step 1: the first copy of `B` becomes `"b" | ((!"c" ~ NEVER) | "c")` -/
+def demoG2 : Grammar :=
+  { rules := [⟨"r", 0, .seq [.group (.str [97]) none,
+                  .group (.choice [.group (.seq [sStar, .str never]) none, sStar]) none], .grammar⟩,
+              ⟨"s", 0, .group (.choice [.choice [.str [98],
+                  .group (.choice [.group (.seq [.notP (.str [99]), .str never]) none, .str [99]]) none],
+                  sBody]) none, .grammar⟩, wsRule] }
+
+/-- "a b c" -/
+def demoInp : Input := #[97, 32, 98, 32, 99]
+
+theorem demo_never : NeverAt demoInp never := never_literal (by decide)
+
+theorem demo_trivia (G : Grammar) (hf : G.fusedSkip = none) (hw : G.lookup "WHITESPACE" = some wsRule)
+    (hc : G.lookup "COMMENT" = none) (inp : Input) : TriviaTotal G inp := by
+  apply L0.triviaTotal_of_progress hf
+  · rw [hw]; exact L0.tryProgress_str wsRule 32 [] rfl
+  · rw [hc]; exact L0.tryProgress_none
+
+theorem demoG_trivia (inp : Input) : TriviaTotal demoG inp := demo_trivia demoG rfl rfl rfl inp
+theorem demoG1_trivia (inp : Input) : TriviaTotal demoG1 inp := demo_trivia demoG1 rfl rfl rfl inp
+theorem demoG2_trivia (inp : Input) : TriviaTotal demoG2 inp := demo_trivia demoG2 rfl rfl rfl inp
+
+theorem demo_step1 : GrammarRel (Rewrite demoInp) demoG demoG1 := by
+  apply GrammarRel.of_rules rfl
+  refine .cons ⟨rfl, rfl, ?_⟩ (.cons ⟨rfl, rfl, ?_⟩ (.cons ⟨rfl, rfl, .refl _⟩ .nil))
+  · exact .seq (.cons (.base (.paren _ _)) (.cons (.base (.neverSeq _ _ _ _ demo_never)) .nil))
+  · exact .base (.dup _ _)
+
+theorem demo_step2 : GrammarRel (Rewrite demoInp) demoG1 demoG2 := by
+  apply GrammarRel.of_rules rfl
+  refine .cons ⟨rfl, rfl, .refl _⟩ (.cons ⟨rfl, rfl, ?_⟩ (.cons ⟨rfl, rfl, .refl _⟩ .nil))
+  exact .group (.choice (.cons (.choice (.cons (.refl _)
+    (.cons (.base (.neverNot _ _ _ _ demo_never)) .nil))) (.cons (.refl _) .nil)))
+
+/-- the two steps compose: same parse results for every start rule and start position -/
+theorem demo_equiv : GEquiv demoG demoG2 demoInp :=
+  (L0.rewrites_preserve_parse demo_step1 (demoG_trivia _) (demoG1_trivia _)).trans
+    (L0.rewrites_preserve_parse demo_step2 (demoG1_trivia _) (demoG2_trivia _))
+
+example : SkipTotal demoG := by intro r h; simp [Grammar.fusedSkip, Grammar.lookup, demoG] at h
+example : SkipTotal demoG2 := by intro r h; simp [Grammar.fusedSkip, Grammar.lookup, demoG2] at h
+
+mutual
+/-- pre-order signature of a forest (name, start, end, number of children): determines the
+    forest up to tags -/
+def Pair.sig : Pair → List (String × Nat × Nat × Nat)
+  | .mk n _ s e ch _ => (n, s, e, ch.length) :: sigL ch
+def sigL : List Pair → List (String × Nat × Nat × Nat)
+  | [] => []
+  | p :: ps => p.sig ++ sigL ps
+end
+
+def same1 : R1 → R1 → Bool
+  | .done true c ps, .done true c' ps' => c.pos == c'.pos && sigL ps == sigL ps' && sigL ps != []
+  | _, _ => false
+def sameG : RG → RG → Bool
+  | .done true c ps, .done true c' ps' => c.pos == c'.pos && sigL ps == sigL ps' && sigL ps != []
+  | _, _ => false
+def same0 : R0 → R0 → Bool
+  | .ok c ps, .ok c' ps' => c.pos == c'.pos && sigL ps == sigL ps' && sigL ps != []
+  | _, _ => false
+
+-- the three models, original vs twice-rewritten grammar, on "a b c": same end, same tree
+example : same0 (L0.parse demoG demoInp 30 "r" 0) (L0.parse demoG2 demoInp 40 "r" 0) = true := by decide +kernel
+example : same1 (L1.parse demoG demoInp 30 "r" 0) (L1.parse demoG2 demoInp 40 "r" 0) = true := by decide +kernel
+example : sameG (LG.parse demoG demoInp 30 "r" 0) (LG.parse demoG2 demoInp 40 "r" 0) = true := by decide +kernel
+-- … and the tree is r[0,5] > s[2,3], s[4,5]
+example : (match L0.parse demoG2 demoInp 40 "r" 0 with
+    | .ok _ ps => sigL ps == [("r", 0, 5, 2), ("s", 2, 3, 0), ("s", 4, 5, 0)] | _ => false) = true := by
+  decide +kernel
+
+/-! #### extraction -/
+
+/-- `demoG` plus `xr1 = _{ "b" | "c" }`, with the body of `s` replaced by `xr1` -/
+def demoX : Grammar :=
+  { rules := [⟨"r", 0, .seq [.str [97], sStar], .grammar⟩, ⟨"s", 0, .ident "xr1" none, .grammar⟩, wsRule,
+              ⟨"xr1", SILENT, sBody, .grammar⟩] }
+
+theorem demo_unref : Unreferenced demoG "xr1" := by decide +kernel
+
+theorem demo_extract (start : String) (hs : start ≠ "xr1") (k : Nat) (r : R0) (inp : Input) :
+    ParseC demoG inp start k r ↔ ParseC demoX inp start k r := by
+  apply extract_silent_grammar (nm := "xr1") (e := sBody) rfl demo_unref (by decide) (by decide) (by decide)
+    _ rfl hs
+  apply GrammarRel.of_rules rfl
+  exact .cons ⟨rfl, rfl, .refl _⟩ (.cons ⟨rfl, rfl, .base ⟨rfl, none, rfl⟩⟩
+    (.cons ⟨rfl, rfl, .refl _⟩ (.cons ⟨rfl, rfl, .refl _⟩ .nil)))
+
+example : same1 (L1.parse demoG demoInp 30 "r" 0) (L1.parse demoX demoInp 40 "r" 0) = true := by decide +kernel
+example : sameG (LG.parse demoG demoInp 30 "r" 0) (LG.parse demoX demoInp 40 "r" 0) = true := by decide +kernel
+
+/-! #### the hypotheses of (4)/(5) and the shape of (2) cannot be dropped -/
+
+/-- WHITESPACE refers to an undefined rule -/
+def badG : Grammar := { rules := [⟨"WHITESPACE", SILENT, .ident "nope" none, .grammar⟩] }
+
+def isOk : R0 → Bool | .ok _ _ => true | _ => false
+def isStuck : R0 → Bool | .stuck => true | _ => false
+
+-- `"a"` answers, `("a" ~ NEVER) | "a"` raises `KeyError`
+example : isOk (L0.run badG #[97] 10 (.str [97]) ⟨0, [], false⟩) = true := by decide +kernel
+example : isStuck (L0.run badG #[97] 10
+    (.group (.choice [.group (.seq [.str [97], .str never]) none, .str [97]]) none) ⟨0, [], false⟩) = true := by
+  decide +kernel
+
+/-- a fused SKIP rule that is not a loop: one optional space -/
+def onceG : Grammar := { rules := [⟨"SKIP", SILENT + ATOMIC, .opt (.str [32]), .grammar⟩] }
+
+def endsAt : R0 → Nat → Bool | .ok s _, p => s.pos == p | _, _ => false
+
+-- "a  c": `"a" ~ "c"` fails, `"a" ~ () ~ "c"` (empty parentheses) matches — trivia runs twice
+example : isOk (L0.run onceG #[97, 32, 32, 99] 10 (.seq [.str [97], .str [99]]) ⟨0, [], false⟩) = false := by
+  decide +kernel
+example : endsAt (L0.run onceG #[97, 32, 32, 99] 10
+    (.seq [.str [97], .group (.seq []) none, .str [99]]) ⟨0, [], false⟩) 4 = true := by decide +kernel
 
 end C08
 end Pest
